@@ -86,6 +86,9 @@ func awsInstanceBody() *schema.BodySchema {
 				"cores": cty.Number, "threads": cty.Number,
 			})}},
 			"private_ips": {IsOptional: true, Description: md("private_ips-desc"), Constraint: schema.AnyExpression{OfType: cty.List(cty.String)}},
+			"routes": {IsOptional: true, Description: md("routes-desc"), Constraint: schema.AnyExpression{OfType: cty.List(cty.Object(map[string]cty.Type{
+				"cidr": cty.String, "gateway": cty.String,
+			}))}},
 		},
 		Blocks: map[string]*schema.BlockSchema{
 			"ebs_block_device": {
@@ -111,6 +114,8 @@ func awsInstanceBody() *schema.BodySchema {
 					Attributes: map[string]*schema.AttributeSchema{
 						"device_index": {IsRequired: true, Constraint: schema.AnyExpression{OfType: cty.Number}, Description: md("device_index-desc")},
 						"network_id":   {IsOptional: true, Constraint: schema.AnyExpression{OfType: cty.String}, Description: md("network_id-desc")},
+						"addresses":    {IsOptional: true, Constraint: schema.AnyExpression{OfType: cty.List(cty.String)}, Description: md("addresses-desc")},
+						"labels":       {IsOptional: true, Constraint: schema.AnyExpression{OfType: cty.Map(cty.String)}, Description: md("ni-labels-desc")},
 					},
 				},
 			},
@@ -683,6 +688,14 @@ func Make(name string) (*core.Workspace, error) {
 	}
 	ws.Paths[RootPath] = root
 	ws.Order = []string{RootPath}
+	if c.Twin {
+		twin := &core.PathSpec{Schema: Terraform(), Files: map[string]string{}, Functions: Functions()}
+		for f, src := range c.Root {
+			twin.Files[f] = src
+		}
+		ws.Paths[TwinPath] = twin
+		ws.Order = append(ws.Order, TwinPath)
+	}
 	if c.Child != nil {
 		child := &core.PathSpec{Schema: ChildSchema(), Files: map[string]string{}, Functions: Functions()}
 		for f, src := range c.Child {
@@ -697,4 +710,8 @@ func Make(name string) (*core.Workspace, error) {
 type config struct {
 	Root  map[string]string
 	Child map[string]string
+	Twin  bool // a second root path with the same files
 }
+
+// TwinPath is the second root of the "twins" fixtures.
+const TwinPath = "/ws/root2"
